@@ -246,14 +246,14 @@ Proof.
     destruct (Htr Hnd _ Hk) as (Hh & Hsp & Hpr). cbn [RepetitionIndexKernel_nr_repeated_parities] in Hh, Hsp, Hpr.
     rewrite Hh, Hsp, Hpr, !translates_one. cbn [concat]. rewrite !app_nil_r. rewrite !(Hblock _ n s' Hk).
     split; [apply block_heralded; exact Hq|]. split; [apply block_parity; assumption|].
-    intros Hn1. rewrite (block_final data anc n s' Hn0). replace (n =? 0) with false by lia. split; [reflexivity|].
+    intros Hn1. rewrite (block_final data anc q n s' Hn0). replace (n =? 0) with false by lia. split; [reflexivity|].
     rewrite (block_parity data anc q Hq n s' Hn0), rep_final, rep_stabilizer, Hq, Hm. replace (n =? 0) with false by lia.
     cbn [andb negb]. rewrite last_last. reflexivity.
   - (* the 0-round block *)
     intros H0. destruct (Hkn 0 H0) as (s' & Hk). exists (MkRepetitionIndexKernel 0 true s' data anc).
     split; [exact Hk|]. split; [reflexivity|].
     destruct (Htr Hnd _ Hk) as (_ & Hsp & Hpr). cbn [RepetitionIndexKernel_nr_repeated_parities] in Hsp, Hpr.
-    rewrite (Hblock _ 0 s' Hk), (block_final data anc 0 s') by lia. split; [reflexivity|].
+    rewrite (Hblock _ 0 s' Hk), (block_final data anc q 0 s') by lia. split; [reflexivity|].
     destruct (rep_kernel_ancilla_zero_gap true s' data anc q Hq) as (_ & Hf & Hs & Hnot).
     rewrite Hpr, Hsp, Hf, Hs, !translates_one. split; [reflexivity|]. split; [reflexivity|].
     (* no category of q, in any kernel, sits on that slot *)
@@ -285,4 +285,108 @@ Proof.
     destruct st; [rewrite H0, P0 | rewrite H1, P1 | rewrite H2, P2];
       cbn [calibration_labelled StateKey_all flat_map app positions_from is_tl fst snd tag_eqb label_eqb StateKey_eqb andb];
       repeat split; repeat (f_equal; try lia).
+Qed.
+
+(* ------------------------------------------------------------------ the same, on the bare tag sequence (what the circuit exposes) *)
+Definition zero_round_slots (e : RepetitionExperimentKernel) : list Z :=
+  concat (map (fun k => if RepetitionIndexKernel_nr_repeated_parities k =? 0 then [RepetitionIndexKernel_stop_index k] else [])
+              (RepetitionExperimentKernel__repetition_kernels e)).
+
+Lemma tag_positions rounds data anc q :
+  rounds <> [] -> NoDup rounds -> Forall (fun r => 0 <= r) rounds -> is_member q anc = true ->
+  exists e, circuit_kernel rounds data anc = Value e
+  /\ positions (is_tag THeralded) (multi_round_tags rounds)
+     = concat (map (fun n => concat (RepetitionExperimentKernel_get_heralded_cycle_acquisition_indices e q n)) rounds)
+       ++ concat (map (RepetitionExperimentKernel_get_heralded_calibration_acquisition_indices e q) StateKey_all)
+  /\ positions (is_tag TParity) (multi_round_tags rounds)
+     = concat (map (fun n => concat (RepetitionExperimentKernel_get_stabilizer_and_projected_cycle_acquisition_indices e q n)) rounds)
+  /\ positions (is_tag TFinal) (multi_round_tags rounds)
+     = zero_round_slots e ++ concat (map (RepetitionExperimentKernel_get_projected_calibration_acquisition_indices e q) StateKey_all)
+  /\ (forall x, In x (zero_round_slots e) -> ~ In x (cycle_indices e q)).
+Proof.
+  intros Hne Hnd Hpos Hq.
+  pose proof (experiment_kernel_closed rounds true true data anc 1 Hne) as He.
+  exists (exp_closed rounds true data anc 1). split; [exact He|].
+  set (e := exp_closed rounds true data anc 1) in *.
+  set (ks := kernels_from true data anc 0 rounds).
+  assert (Hm : is_member q (data ++ anc) = true) by (apply existsb_app_r; exact Hq).
+  destruct (repetition_translate rounds true true data anc 1 e q He) as (Htr & _ & Hcal & _). cbv zeta in Htr, Hcal.
+  specialize (Htr Hnd).
+  (* positions of a tag = blocks against the kernel chain ++ calibration block *)
+  assert (Hsplit : forall T, positions (is_tag T) (multi_round_tags rounds)
+            = concat (map (fun k => positions_from (is_tag T) (RepetitionIndexKernel_start_index k)
+                                      (block_tags (RepetitionIndexKernel_nr_repeated_parities k))) ks)
+              ++ positions_from (is_tag T) (total_len true rounds) (map fst calibration_labelled)).
+  { intros T. unfold positions, multi_round_tags, multi_round_labelled.
+    change (flat_map (fun r => map (fun t => (t, Block r)) (block_tags r)) rounds) with (flat_map labelled_block rounds).
+    rewrite map_app, positions_from_app, map_length, (blocks_length rounds Hpos). f_equal.
+    rewrite positions_from_map, (blocks_positions _ data anc rounds Hpos 0). f_equal. apply map_ext. intros k.
+    unfold labelled_block. rewrite positions_from_map. reflexivity. }
+  (* the kernels of the chain *)
+  assert (Hk : forall k, In k ks -> exists r s', k = MkRepetitionIndexKernel r true s' data anc /\ 0 <= r).
+  { intros k Hin. apply kernels_from_In in Hin. destruct Hin as (r & s' & -> & Hr & _). exists r, s'. split; [reflexivity|].
+    rewrite Forall_forall in Hpos. exact (Hpos r Hr). }
+  assert (Hrounds : forall (f : Z -> list Z), concat (map f rounds) = concat (map (fun k => f (RepetitionIndexKernel_nr_repeated_parities k)) ks)).
+  { intros f. rewrite <- (kernels_from_rounds true data anc 0 rounds) at 1. rewrite map_map. reflexivity. }
+  destruct Hcal as (H0 & H1 & H2 & P0 & P1 & P2).
+  destruct (cal_getters true (total_len true rounds) (data ++ anc) q) as (G0 & G1 & G2 & G3 & G4 & G5).
+  rewrite Hm in G0, G1, G2, G3, G4, G5. cbn [andb dh] in G0, G1, G2, G3, G4, G5.
+  cbn [e exp_closed RepetitionExperimentKernel__calibration_kernel] in H0, H1, H2, P0, P1, P2.
+  rewrite G0 in H0. rewrite G2 in H1. rewrite G4 in H2. rewrite G1 in P0. rewrite G3 in P1. rewrite G5 in P2.
+  rewrite translates_one in H0, H1, H2, P0, P1, P2. cbn [concat app] in H0, H1, H2, P0, P1, P2.
+  split; [|split; [|split]].
+  - rewrite Hsplit, Hrounds. f_equal.
+    + f_equal. apply map_ext_in. intros k Hin. destruct (Hk k Hin) as (r & s' & -> & Hr).
+      destruct (Htr _ Hin) as (Hh & _). cbn [RepetitionIndexKernel_nr_repeated_parities RepetitionIndexKernel_start_index] in *.
+      rewrite Hh, translates_one. cbn [concat]. rewrite app_nil_r. apply block_heralded. exact Hq.
+    + cbn [StateKey_all map concat]. rewrite H0, H1, H2.
+      cbn [calibration_labelled StateKey_all flat_map app map fst positions_from is_tag tag_eqb]. repeat (f_equal; try lia).
+  - rewrite Hsplit, Hrounds.
+    cbn [calibration_labelled StateKey_all flat_map app map fst positions_from is_tag tag_eqb]. rewrite app_nil_r.
+    f_equal. apply map_ext_in. intros k Hin. destruct (Hk k Hin) as (r & s' & -> & Hr).
+    destruct (Htr _ Hin) as (_ & Hsp & _). cbn [RepetitionIndexKernel_nr_repeated_parities RepetitionIndexKernel_start_index] in *.
+    rewrite Hsp, translates_one. cbn [concat]. rewrite app_nil_r. apply block_parity; assumption.
+  - rewrite Hsplit. f_equal.
+    + unfold zero_round_slots. change (RepetitionExperimentKernel__repetition_kernels e) with ks.
+      f_equal. apply map_ext_in. intros k Hin. destruct (Hk k Hin) as (r & s' & -> & Hr).
+      cbn [RepetitionIndexKernel_nr_repeated_parities RepetitionIndexKernel_start_index]. apply (block_final data anc q). exact Hr.
+    + cbn [StateKey_all map concat]. rewrite P0, P1, P2.
+      cbn [calibration_labelled StateKey_all flat_map app map fst positions_from is_tag tag_eqb]. repeat (f_equal; try lia).
+  - intros x Hx. unfold zero_round_slots in Hx. change (RepetitionExperimentKernel__repetition_kernels e) with ks in Hx.
+    apply in_concat in Hx. destruct Hx as (l & Hl & Hx). apply in_map_iff in Hl. destruct Hl as (k & <- & Hin).
+    destruct (Hk k Hin) as (r & s' & -> & Hr). cbn [RepetitionIndexKernel_nr_repeated_parities] in Hx.
+    destruct (Z.eqb_spec r 0) as [->|]; [|destruct Hx]. destruct Hx as [<-|[]].
+    destruct (rep_kernel_ancilla_zero_gap true s' data anc q Hq) as (_ & _ & _ & Hnot).
+    intros Hcy. unfold cycle_indices in Hcy. apply in_app_or in Hcy. destruct Hcy as [Hcy|Hcy].
+    + change (RepetitionExperimentKernel__repetition_kernels e) with ks in Hcy.
+      apply In_chain_indices in Hcy. destruct Hcy as (k' & Hk' & Hx).
+      destruct (Hk k' Hk') as (r' & s'' & -> & _).
+      pose proof (incr_in_sub _ _ _ _ (rep_kernel_incr r' true s'' data anc q) Hx) as Hb.
+      assert (Heq : MkRepetitionIndexKernel r' true s'' data anc = MkRepetitionIndexKernel 0 true s' data anc).
+      { apply (kernels_from_disjoint true data anc rounds 0 _ _ (RepetitionIndexKernel_stop_index (MkRepetitionIndexKernel 0 true s' data anc)) Hk' Hin Hb).
+        rewrite rep_stop. cbn [RepetitionIndexKernel_start_index]. pose proof (klen_pos true 0). lia. }
+      rewrite Heq in Hx. exact (Hnot Hx).
+    + cbn [e exp_closed RepetitionExperimentKernel__calibration_kernel] in Hcy.
+      pose proof (incr_in_sub _ _ _ _ (cal_kernel_incr true (total_len true rounds) (data ++ anc) q) Hcy) as Hb.
+      cbn [QutritCalibrationIndexKernel_start_index] in Hb.
+      apply kernels_from_In in Hin. destruct Hin as (r0 & s0 & Heq & _ & _ & Hle). injection Heq as <- <-.
+      rewrite rep_stop in Hb. lia.
+Qed.
+
+(* ------------------------------------------------------------------ non-vacuity *)
+Example example_multi_round :
+  multi_round_tags [2; 0; 3]
+  = [THeralded; TParity; TParity; THeralded; TFinal; THeralded; TParity; TParity; TParity;
+     THeralded; TFinal; THeralded; TFinal; THeralded; TFinal]
+  /\ exists e, circuit_kernel [2; 0; 3] [0; 2; 4] [1; 3] = Value e
+     /\ RepetitionExperimentKernel_kernel_cycle_length e = 15
+     /\ positions (is_tag TParity) (multi_round_tags [2; 0; 3]) = [1; 2; 6; 7; 8]
+     /\ RepetitionExperimentKernel_get_stabilizer_and_projected_cycle_acquisition_indices e 1 3 = [[6; 7; 8]]
+     /\ zero_round_slots e = [4]
+     /\ positions (is_tag TFinal) (multi_round_tags [2; 0; 3]) = [4; 10; 12; 14].
+Proof. split; [reflexivity|]. eexists. split; [reflexivity|]. vm_compute. repeat split; reflexivity. Qed.
+
+Example example_hypotheses13 : [2; 0; 3] <> [] /\ NoDup [2; 0; 3] /\ Forall (fun r => 0 <= r) [2; 0; 3] /\ is_member 1 [1; 3] = true.
+Proof.
+  split; [discriminate|]. split; [repeat constructor; cbn [In]; lia|]. split; [repeat constructor; lia|]. reflexivity.
 Qed.
